@@ -118,10 +118,22 @@ pub fn gen_sample_set(rng: &mut Rng, o: &GenOpts) -> SampleSet {
     let mut samples = vec![];
     // PanSN sets: sometimes two haplotypes per individual (i00#1, i00#2, i01#1, …) instead of one
     // individual per sample (s000#1, s001#1, …)
-    let haplotypes = o.pansn && rng.chance(1, 2);
+    // …or one individual with many haplotypes whose numbers are string prefixes of each other
+    // (p#1, p#10, p#100, p#11, p#2, …): naming 0 = one sample per individual, 1 = two haplotypes per
+    // individual, 2 = prefix-related haplotype numbers
+    let naming = if o.pansn { rng.below(3) } else { 0 };
+    const PREFIXY: [usize; 12] = [1, 10, 100, 11, 12, 2, 20, 21, 3, 30, 4, 5];
     for s in 0..o.n_samples {
-        let name = if haplotypes { format!("i{:02}", s / 2) } else { format!("s{:03}", s) };
-        let hap = if haplotypes { 1 + s % 2 } else { 1 };
+        let name = match naming {
+            1 => format!("i{:02}", s / 2),
+            2 => format!("p{:02}", s / PREFIXY.len()),
+            _ => format!("s{:03}", s),
+        };
+        let hap = match naming {
+            1 => 1 + s % 2,
+            2 => PREFIXY[s % PREFIXY.len()],
+            _ => 1,
+        };
         let mut contigs: Vec<(String, Vec<u8>)> = vec![];
         let mut order: Vec<usize> = (0..base.len()).collect();
         if s > 0 && o.structural {
@@ -243,6 +255,14 @@ pub fn write_presented(rng: &mut Rng, dir: &Path, stem: &str, text: &[u8], p: &P
         _ => {
             // member boundaries anywhere, including inside a header
             let mut cuts: Vec<usize> = (0..rng.range(1, 4)).map(|_| rng.below(text.len().max(1) as u64) as usize).collect();
+            // sometimes exactly between records (a member ends with '\n', the next starts with '>')
+            if rng.chance(1, 2) {
+                for i in 1..text.len() {
+                    if text[i] == b'>' && text[i - 1] == b'\n' && rng.chance(2, 3) {
+                        cuts.push(i);
+                    }
+                }
+            }
             cuts.push(0);
             cuts.push(text.len());
             cuts.sort();
